@@ -7,7 +7,7 @@ from pv.core.runner import new_partial, violation
 PROP = "C13"
 ENGINE = "E6 configuration explorer"
 RULE = (
-    "every population of <= 3 (thorough 4) instances drawn from 6 receiver kinds (plain, value-equal and "
+    "every population of <= 3 (thorough 4) instances drawn from 8 receiver kinds (plain, value-equal with and without a type guard, value-equal and "
     "hashable, value-equal and unhashable, subclass inheriting the method, __slots__, receiver parameter "
     "not called self) x every probed target (the class attribute, each instance through obj.meth, a "
     "functools.wraps-decorated method, a property, a dotted holder.inner.obj.meth path) x every call "
@@ -69,6 +69,30 @@ class EqNoHash:
         v = x + 1
         return v
 
+class EqDuck:
+    """value equality without a type guard (duck typing)"""
+    def __str__(self):
+        return "duck"
+    def __eq__(self, other):
+        return str(self) == str(other)
+    def __hash__(self):
+        return 7
+    def meth(self, x):
+        v = x + 1
+        return v
+
+class EqAttr:
+    """value equality that assumes the other operand has the same attribute"""
+    def __init__(self, k):
+        self.k = k
+    def __eq__(self, other):
+        return self.k == other.k
+    def __hash__(self):
+        return hash(self.k)
+    def meth(self, x):
+        v = x + 1
+        return v
+
 class Slots:
     __slots__ = ("k",)
     def meth(self, x):
@@ -82,15 +106,38 @@ class Other:
 
 class Holder:
     pass
+
+def drive(objs, seq):
+    n = 0
+    for i in seq:
+        n += 1
+        if i == "decoy":
+            meth(n - 1)
+        else:
+            objs[i].meth(n - 1)
+    return n
+
+def area_deco(fn):
+    @functools.wraps(fn)
+    def wrapper(self):
+        return fn(self) * 2
+    return wrapper
+
+class Box:
+    @property
+    @area_deco
+    def area(self):
+        a = 21
+        return a
 '''
 
-KINDS = ["Plain", "Sub", "Eq", "EqNoHash", "Slots", "Other"]
+KINDS = ["Plain", "Sub", "Eq", "EqNoHash", "Slots", "Other", "EqDuck", "EqAttr"]
 RECEIVER_NAME = {"Other": "this"}
 
 
 def make_instance(ns, kind):
     cls = ns[kind]
-    if kind in ("Eq", "EqNoHash"):
+    if kind in ("Eq", "EqNoHash", "EqAttr"):
         return cls(1)  # all instances of these kinds are equal to each other
     return cls()
 
@@ -105,8 +152,9 @@ def class_of(kind):
     return "Plain" if kind == "Sub" else kind
 
 
-def run_case(ns, objs, kinds, target, seq, part):
-    """target: ('class', kind) | ('obj', index).  seq: tuple of indices into objs or 'decoy'."""
+def run_case(ns, objs, kinds, target, seq, part, nested=False):
+    """target: ('class', kind) | ('obj', index).  seq: tuple of indices into objs or 'decoy'.
+    nested: the calls are made by the instrumented driver and the selector is `drive > <target> > v`."""
     from ptera import probing
 
     env = dict(ns)
@@ -116,6 +164,8 @@ def run_case(ns, objs, kinds, target, seq, part):
         text = f"{class_of(target[1])}.meth > v"
     else:
         text = f"o{target[1]}.meth > v"
+    if nested:
+        text = "drive > " + text
     got = []
     try:
         p = probing(text, env=env)
@@ -126,13 +176,25 @@ def run_case(ns, objs, kinds, target, seq, part):
         return ("activation", f"{text}: {type(e).__name__}: {e}")
     try:
         calls = []
-        for n, s in enumerate(seq):
-            if s == "decoy":
-                ns["meth"](n)
-                calls.append(("decoy", None, n))
-            else:
-                objs[s].meth(n)
-                calls.append((s, objs[s], n))
+        if nested:
+            ns["drive"](objs, seq)
+            for n, s in enumerate(seq):
+                calls.append(("decoy", None, n) if s == "decoy" else (s, objs[s], n))
+        else:
+            for n, s in enumerate(seq):
+                if s == "decoy":
+                    ns["meth"](n)
+                    calls.append(("decoy", None, n))
+                else:
+                    objs[s].meth(n)
+                    calls.append((s, objs[s], n))
+    except BaseException as e:
+        try:
+            p.__exit__(None, None, None)
+        except BaseException:
+            pass
+        world.reset_context()
+        return ("call-failed", f"{text} with population {kinds} and calls {seq}: {type(e).__name__}: {e}"), False
     finally:
         try:
             p.__exit__(None, None, None)
@@ -176,16 +238,17 @@ def work(unit, tier):
                 part["cases"] += 1
                 part["evaluations"] += 1
                 part["steps"] += n
-                r = run_case(ns, objs, kinds, target, seq, part)
-                bad, filtered = r if isinstance(r[0], (tuple, type(None))) and len(r) == 2 and not isinstance(r[0], str) else (r, False)
-                if filtered:
-                    part["nontrivial"] += 1
-                part["outcomes"][f"{target[0]}:{'bad' if bad else 'ok'}:{filtered}"] += 1
-                if bad:
-                    tk = kinds[target[1]] if target[0] == "obj" else target[1]
-                    part["violations"].append(violation(
-                        PROP, bad[0], {"population": list(kinds), "target": list(target), "seq": list(seq)}, bad[1],
-                        tags=[bad[0], "target-kind:" + tk]))
+                for nested in ((False, True) if n == seqlen or n == 1 else (False,)):
+                    r = run_case(ns, objs, kinds, target, seq, part, nested=nested)
+                    bad, filtered = r if isinstance(r[0], (tuple, type(None))) and len(r) == 2 and not isinstance(r[0], str) else (r, False)
+                    if filtered:
+                        part["nontrivial"] += 1
+                    part["outcomes"][f"{target[0]}:{'bad' if bad else 'ok'}:{filtered}:{nested}"] += 1
+                    if bad:
+                        tk = kinds[target[1]] if target[0] == "obj" else target[1]
+                        part["violations"].append(violation(
+                            PROP, bad[0], {"population": list(kinds), "target": list(target), "seq": list(seq), "nested": nested}, bad[1],
+                            tags=[bad[0], "target-kind:" + tk]))
     if not part["samples"]:
         part["samples"].append({"population": list(kinds), "targets": [list(t) for t in targets], "alphabet": [str(a) for a in alphabet]})
     return part
@@ -207,6 +270,10 @@ def check_paths(ns, part):
         ("holder.inner.obj.meth > v", lambda: (a.meth(1), b.meth(2), ns["meth"](5)), [{"v": 2, "self": a}]),
         ("Plain.meth > v", lambda: (a.meth(1), ns["meth"](5), b.meth(2)), [{"v": 2}, {"v": 3}]),
         ("meth > v", lambda: (a.meth(1), ns["meth"](5), b.meth(2)), [{"v": 500}]),
+        ("Box.area > a", lambda: (ns["Box"]().area,), [{"a": 21}]),
+        ("Box.area() as r", lambda: (ns["Box"]().area,), [{"r": 21}]),
+        ("Plain.wrapped() as r", lambda: (a.wrapped(1),), [{"r": 3}]),
+        ("a.wrapped() as r", lambda: (b.wrapped(1), a.wrapped(1)), [{"r": 3, "self": a}]),
     ]
     for text, action, exp in cases:
         part["cases"] += 1
@@ -240,7 +307,7 @@ def replay(case):
     kinds = tuple(case["population"])
     objs = [make_instance(ns, k) for k in kinds]
     seq = tuple(s if s == "decoy" else int(s) for s in case["seq"])
-    r = run_case(ns, objs, kinds, tuple(case["target"]), seq, part)
+    r = run_case(ns, objs, kinds, tuple(case["target"]), seq, part, nested=case.get("nested", False))
     bad = r[0] if not isinstance(r[0], str) else r
     if bad:
         return True, bad[1]
